@@ -33,7 +33,10 @@ fn run(enc: &'static encoding_rs::Encoding, input: &[u8], cuts: &[usize], hs: u8
         Ok(())
     };
     let settings = match hs {
-        0 => settings,
+        0 => {
+            drop(text_log);
+            settings
+        }
         1 => settings.append_document_content_handler(doc_text!(text_log)),
         2 => settings
             .append_document_content_handler(doc_text!(text_log))
@@ -62,10 +65,13 @@ fn run(enc: &'static encoding_rs::Encoding, input: &[u8], cuts: &[usize], hs: u8
                 Ok(())
             }))
         }
-        _ => settings.append_element_content_handler(element!("b", |e| {
-            let _ = e.tag_name();
-            Ok(())
-        })),
+        _ => {
+            drop(text_log);
+            settings.append_element_content_handler(element!("b", |e| {
+                let _ = e.tag_name();
+                Ok(())
+            }))
+        }
     };
     let _ = ContentType::Html;
     let mut rw = HtmlRewriter::new(settings, move |c: &[u8]| o1.borrow_mut().sink.extend_from_slice(c));
